@@ -287,7 +287,9 @@ def _check_accuracy(case):
             if not werr2 <= bound2 + floor:
                 viols.append(V("accuracy", "{}: at tol/100 = {:.1e} max error {:.3e} = {:.1f} x (atol + rtol max|y|), {} steps (allowed {:.1f} x)".format(
                     method, c2["rtol"], werr2, werr2 / unit2, N2, bound2 / unit2), fam, hlam=hlam2, **attrs))
-            elif werr2 > 10 * werr + floor and werr > floor:
+            elif werr2 > 10 * werr + floor and werr > floor and werr2 > unit2:
+                # (only when the tighter run is also above its own tolerance level: a loose run can be accurate by luck -
+                #  RadauIIA5, 7e-9 at tol 1e-3 - and then the comparison says nothing)
                 viols.append(V("tolerance_not_proportional", "{}: tightening the tolerance by 100 made the error 10x worse: {:.3e} -> {:.3e} (steps {} -> {})".format(
                     method, werr, werr2, N, N2), fam, hlam=hlam2, **attrs))
             labels.append("tol/100_run")
@@ -312,7 +314,7 @@ def _check_accuracy(case):
                 if not werr3 <= bound3 + 1e-13 * (1 + ymax3) * max(N3, 1):
                     viols.append(V("accuracy", "{}: with the target {:.1e} of a step beyond the natural step end {!r} (tf = {!r}, tol {:.1e}) max error {:.3e} = {:.1f} x (atol + rtol max|y|), {} steps (allowed {:.1f} x; the run to {!r} had {:.1f} x)".format(
                         method, case["snap"], float(tt[k + 1]), tf3, case["rtol"], werr3, werr3 / unit3, N3, bound3 / unit3, case["tf"], werr / unit), fam, hlam=hlam, snap=True, **attrs))
-                elif abs(t3[-1] - tf3) > 4 * np.finfo(np.float64).eps * max(abs(tf3), abs(case["t0"])):
+                elif abs(t3[-1] - tf3) > 64 * np.finfo(np.float64).eps * max(1.0, abs(tf3), abs(case["t0"])):      # (C03's end-time tolerance)
                     viols.append(V("target_missed", "{}: target {!r} (a sliver past a natural step end) but the grid ends at {!r}".format(method, tf3, float(t3[-1])), fam, snap=True, **attrs))
             elif not isinstance(err3, traj.StepCap) and not (implicit and isinstance(err3.__cause__, de.exception_types.FailedToMeetTolerances)):
                 viols.append(V("integrate_raised", "{}: target a sliver ({:.1e} of a step) past a natural step end: raised {!r} caused by {!r}".format(method, case["snap"], err3, err3.__cause__), fam + exc_sig(err3), hlam=None, snap=True, **attrs))
